@@ -8,6 +8,7 @@ import (
 	"os"
 	"path/filepath"
 	"sort"
+	"strings"
 	"sync/atomic"
 	"testing"
 	"time"
@@ -188,11 +189,16 @@ type totalOutcome struct {
 	invalid  int  // Steps that logged "invalid code"
 	halted   bool // the program executed a HALT within the Step bound
 	ranRun   bool // ... and Run was checked on a fresh copy
+	hung     bool // a Step never returned: the goroutine is still spinning, the process must end after reporting
 	shortAcc bool
 	intr     int
 	wrapPfx  bool
 }
 
+// stepBudget: a Step normally takes nanoseconds; one that has not returned after this long never will
+const stepBudget = 20 * time.Second
+
+// safeStep runs one Step under recover; the whole case runs under a watchdog (runTotalMode).
 func safeStep(c *z80.CPU) (p any) {
 	defer func() { p = recover() }()
 	c.Step()
@@ -207,7 +213,35 @@ func runTotal(c *totalCase) totalOutcome {
 	return runTotalMode(c, true)
 }
 
+// runTotalMode runs the case in its own goroutine under a watchdog, so that a Step that spins for ever
+// is reported instead of wedging the process.
 func runTotalMode(c *totalCase, wrap bool) totalOutcome {
+	ch := make(chan totalOutcome, 1)
+	var at int64 // Step index << 16 | PC, for the report
+	go func() { ch <- runTotalInner(c, wrap, &at) }()
+	watchdog.Reset(stepBudget + 25*time.Second)
+	select {
+	case o := <-ch:
+		if !watchdog.Stop() {
+			select {
+			case <-watchdog.C:
+			default:
+			}
+		}
+		return o
+	case <-watchdog.C:
+		v := atomic.LoadInt64(&at)
+		return totalOutcome{hung: true, msg: fmt.Sprintf("Step %d did not return within %v (PC=%04x)", v>>16+1, stepBudget, v&0xffff)}
+	}
+}
+
+var watchdog = func() *time.Timer {
+	t := time.NewTimer(time.Hour)
+	t.Stop()
+	return t
+}()
+
+func runTotalInner(c *totalCase, wrap bool, at *int64) totalOutcome {
 	var o totalOutcome
 	cpu, cm, cio := build(c, wrap)
 	steps := c.Steps
@@ -227,6 +261,7 @@ func runTotalMode(c *totalCase, wrap bool) totalOutcome {
 		}
 		pending := cpu.Interrupt != nil
 		pre := cpu.States
+		atomic.StoreInt64(at, int64(s)<<16|int64(pre.PC))
 		if cm != nil {
 			cm.reads, cm.writes = cm.reads[:0], 0
 		}
@@ -475,6 +510,11 @@ func decode(data []byte) totalCase {
 
 func writeViolation(c any, msg string) {
 	stats.WriteViolation(env, stats.Violation{Property: "C12", Engine: "total", Case: c, Expect: "Step/Run return normally; invalid opcodes only consume their bytes", Got: msg})
+	if strings.Contains(msg, "did not return within") {
+		// a goroutine of this process is spinning inside the emulator for good: report and leave (no shrinking)
+		fmt.Println("VIOLATION-CANDIDATE C12", msg)
+		os.Exit(1)
+	}
 }
 
 func replayFiles() []string {
